@@ -231,6 +231,12 @@ def exposure_bound(tr, market, phase):
                 tr.counters["bound_skipped_undisciplined"] += 1
                 continue
             views = [exposure_view(o) for o in os_]
+            for v_, o in zip(views, os_):
+                # the loss that can really occur is decided by the fills themselves; the reported average price is rounded to 2 dp
+                # (thorough seed 0: a lay carried to an SP of 3.805 reports 3.81, which overstated the worst case by 0.035)
+                fr = [f for f in getattr(o.simulated, "matched", []) if f[2]]
+                if fr and v_["matched"]:
+                    v_["avg"] = sum(f[1] * f[2] for f in fr) / sum(f[2] for f in fr)
             w, l = O.selection_wpp(views)
             tr.counters["rule_bound"] += 1
             worst = max(0.0, -min(w, l))
